@@ -10,7 +10,11 @@ and off) run the REAL execution_loop in lock-step on dict_store, file_store, pac
 `exec_case_ok` (trace accepted, final store = model) and `final_is_sequential` on every run.
 Search (independent of Coq): the same program evaluated as plain nested Python calls must equal value() of
 every task, tasklet and container after the run; everything is complete; the second execute invokes nothing
-and leaves the store unchanged."""
+and leaves the store unchanged.
+End to end (harness/e2e.py): generated jugfile texts (numpy results incl. subclasses, tasklets of tasklets, mapreduce,
+compounds, barrier / bvalue phases, set_jugdir) run by 1-4 real concurrent `jug execute` processes, `jug pack`, a
+reader process - compared name by name and type-exactly with the same text run under a stub `jug` package in which
+Task(f, ...) is the direct call f(...); every call line exactly once; the last execute idle."""
 from . import exectrace as X
 
 # hypotheses of this property's theorems that are other properties of the list: their ties are re-run (reduced) by
@@ -98,6 +102,11 @@ def run(ck):
                 ck.sample({'program': sc['program'], 'backend': sc['backend'], 'events': [X.ev_show(e) for e in res.trace[:30]]})
     b.flush()
     cli_persistence(ck)
+    # end to end: generated jugfile TEXTS run by real concurrent `jug execute` processes (file / keep-alive / dict /
+    # redis-protocol stand-in backends, pack, late workers, barrier phases) against the same text run with a stub `jug`
+    # package in which a Task is a direct call (harness/e2e.py)
+    from . import e2e
+    e2e.run_section(ck, 28, 400)
 
 
 # ---- the command-line path: what `jug execute` computed must be there for the NEXT process, on every backend that has
@@ -167,4 +176,7 @@ def cli_persistence(ck):
 
 
 def replay(obj):
+    if obj.get('section') == 'e2e':
+        from . import e2e
+        return e2e.replay(obj)
     return X.replay_scenario(obj, ORACLES)
